@@ -1065,6 +1065,30 @@ func (g *Gen) sTBC() []Stmt {
 		st = append(st, LocAttr(g.fresh("c"), "close", []Expr{I(42), S("x"), Tab(), T()}[g.n(4)]))
 		g.feat("tbc-not-closable")
 	}
+	if g.o.WGoto > 0 && g.chance(3) {
+		// a goto that stays inside the scope of the pending variables (the label follows
+		// their declarations directly): nothing may be closed by the jump
+		g.labelCtr++
+		lbl := "L" + itoa(g.labelCtr)
+		if g.chance(2) {
+			g.feat("tbc-goto-backward-inside-scope")
+			fuel := g.fresh("fuel")
+			st = append([]Stmt{Loc1(fuel, I(0))}, st...)
+			st = append(st,
+				&Label{Name: lbl},
+				Set(N(fuel), B("+", N(fuel), I(1))),
+				Emit(S("retry"), N(fuel)),
+				IfS(B("<", N(fuel), g.smallInt(2, 3)), Blk(&Goto{Label: lbl}), nil),
+				Emit(S("retried"), I(id)))
+		} else {
+			g.feat("tbc-goto-forward-inside-scope")
+			st = append(st,
+				IfS(g.expr(KBool, 2), Blk(&Goto{Label: lbl}), nil),
+				Emit(S("not skipped"), I(id)),
+				&Label{Name: lbl},
+				Emit(S("tail"), I(id)))
+		}
+	}
 	st = append(st, g.stmts(false)...)
 	g.depth--
 	g.pop()
